@@ -34,6 +34,8 @@ type RootInfo struct {
 	CommitOp int
 	// Restored marks a checkpoint root.
 	Restored bool
+	// ViaTree > 0: (also) committed through the kept tree of that slot.
+	ViaTree int
 
 	// Filled by the driver (observations, used by the classifier only).
 	Nodes   map[hash.Hash]bool // node hash -> is leaf (walked with api.Visit right after commit)
@@ -61,6 +63,18 @@ type Model struct {
 	LastState *RootInfo // last finalized state root
 	// Multipart restore in progress (0 = none).
 	MPVersion uint64
+	// Trees maps a kept-tree slot to the root that tree committed last.
+	Trees map[int]*RootInfo
+}
+
+// KeptUsable reports whether the kept tree of op's slot can be used for op: it
+// exists and the root it committed last is the last finalized state root.
+func (m *Model) KeptUsable(op Op) bool {
+	if op.Tree <= 0 || op.Type != TState || op.Parent != ParentPrev {
+		return false
+	}
+	t := m.Trees[op.Tree]
+	return t != nil && t == m.LastState
 }
 
 // NewModel returns an empty model.
@@ -116,14 +130,25 @@ func (m *Model) ParentOf(op Op) (*RootInfo, map[string]string, error) {
 func (m *Model) ApplyCommit(opIdx int, op Op, h hash.Hash) *RootInfo {
 	parent, base, _ := m.ParentOf(op)
 	content := applyW(base, op.W)
+	if m.Trees == nil {
+		m.Trees = map[int]*RootInfo{}
+	}
 	if r := m.Find(op.Ver, op.Type, h); r != nil {
 		r.Cands = append(r.Cands, op.Cand)
+		if op.Tree > 0 {
+			r.ViaTree = op.Tree
+			m.Trees[op.Tree] = r
+		}
 		return r
 	}
 	r := &RootInfo{
 		Ver: op.Ver, Type: op.Type, Hash: h, Cands: []int{op.Cand}, Content: content,
 		Status: StPending, Parent: parent, CommitOp: opIdx,
 		Nodes: map[hash.Hash]bool{}, Put: map[hash.Hash]bool{}, Removed: map[hash.Hash]bool{},
+	}
+	if op.Tree > 0 {
+		r.ViaTree = op.Tree
+		m.Trees[op.Tree] = r
 	}
 	m.Roots = append(m.Roots, r)
 	m.ByVer[op.Ver] = append(m.ByVer[op.Ver], r)
